@@ -1,4 +1,5 @@
 import LoguruModel.FileSink.CompLemmas
+import LoguruModel.FileSink.OrderLemmas
 /-!
 `sink_usable_after_any_fault`, provable part: a logging call whose rotation predicate says "no", on a
 sink without `watch`, succeeds from ANY state in which no fault is pending and the file object (if any)
@@ -81,5 +82,94 @@ theorem write_ok_of_good (cfg : Cfg) (o : Orc) (w : W) (hf : w.faults = []) (hc 
   match hm : writeBody cfg o w with
   | (.ok u, w') => rfl
   | (.error e, w') => rw [hm] at this; exact this.elim
+
+/-! ### the sink never keeps a closed file object (since `_close_file` forgets the object before closing it) -/
+
+def NotClosed (w : W) : Prop := w.closed = false
+
+theorem NotClosed.insens : Insens NotClosed := fun _ _ _ h => h
+
+theorem closeFile_notClosed : Triple NotClosed closeFile (fun _ => NotClosed) NotClosed := by
+  unfold closeFile
+  simp only [Gen.closeOrder, List.map, seqM]
+  -- file = self._file
+  refine Triple.seq (P := NotClosed) (by unfold closeStep; exact Triple.unit) ?_
+  -- file.flush()
+  refine Triple.seq (P := NotClosed) ?_ ?_
+  · unfold closeStep
+    refine Triple.bindGet (fun a => Triple.pre ?_ (fun w h => h.2))
+    exact Triple.seq (tick_spec NotClosed.insens _) (Triple.ite (fun _ => Triple.throw _) (fun _ => Triple.unit))
+  -- self._file = None  (from here on the sink holds no file object)
+  refine Triple.bind (Q := fun _ w => w.closed = false ∧ w.cur = none) ?_ (fun _ => ?_)
+  · unfold closeStep
+    exact modW_spec _ (fun w _ => ⟨rfl, rfl⟩)
+  have hI : Insens (fun w => w.closed = false ∧ w.cur = none) := fun _ _ _ h => h
+  have toE : ∀ w : W, (w.closed = false ∧ w.cur = none) → NotClosed w := fun w h => h.1
+  refine Triple.seq (P := fun w => w.closed = false ∧ w.cur = none) (by unfold closeStep; exact Triple.unit) ?_
+  refine Triple.seq (P := fun w => w.closed = false ∧ w.cur = none)
+    (by unfold closeStep; exact modW_spec _ (fun w h => h)) ?_
+  refine Triple.seq (P := fun w => w.closed = false ∧ w.cur = none) (by unfold closeStep; exact Triple.unit) ?_
+  -- file.close(): a failure here leaves `_file = None`
+  refine Triple.bind (Q := fun _ => NotClosed) ?_ (fun _ => Triple.unit)
+  unfold closeStep
+  refine Triple.bindGet (fun a => ?_)
+  refine Triple.bind (Q := fun _ w => w.closed = false ∧ w.cur = none) (modW_spec _ ?_) (fun _ => ?_)
+  · rintro w ⟨rfl, hc, hn⟩
+    exact ⟨by simp [hn], hn⟩
+  · exact Triple.seq (tick_specE hI toE _) (modW_spec _ (fun w _ => rfl))
+
+theorem createFile_notClosed (cfg : Cfg) (n : Name) :
+    Triple NotClosed (createFile cfg n) (fun _ => NotClosed) NotClosed := by
+  unfold createFile
+  refine Triple.seq (tick_spec NotClosed.insens _) (Triple.seq (modW_spec _ (fun w _ => rfl))
+    (Triple.ite (fun _ => Triple.seq (tick_spec NotClosed.insens _) (modW_spec _ (fun w h => h))) (fun _ => Triple.unit)))
+
+theorem notClosed_leafs : Leafs NotClosed :=
+  { insens := NotClosed.insens
+    create := createFile_notClosed
+    close := closeFile_notClosed
+    renameSame := sc_renameSame (R := fun _ c => c.closed = false) (fun _ _ _ h _ => h)
+    compression := sc_compression (R := fun _ c => c.closed = false) (fun _ _ _ h _ => h)
+    retStep := sc_retStep (R := fun _ c => c.closed = false) (fun _ _ _ h _ => h) }
+
+theorem writeMsg_notClosed : Triple NotClosed writeMsg (fun _ => NotClosed) NotClosed := by
+  unfold writeMsg
+  refine Triple.seq (tick_spec NotClosed.insens _) (Triple.bindGet (fun w0 => ?_))
+  refine Triple.ite (fun _ => Triple.throw' _ (fun w h => h.2)) (fun _ => ?_)
+  cases w0.cur with
+  | none => exact Triple.throw' _ (fun w h => h.2)
+  | some p =>
+    simp only
+    refine Triple.ite (fun _ => modW_spec _ (fun w h => h.2)) (fun _ => ?_)
+    cases w0.fs.get p with
+    | none => exact modW_spec _ (fun w h => h.2)
+    | some e => exact modW_spec _ (fun w h => h.2)
+
+theorem envTouch_closed (n : Name) (w : W) : (envTouch n w).closed = w.closed := by
+  unfold envTouch; split <;> rfl
+
+theorem step_notClosed (cfg : Cfg) (op : Op) (w : W) (hw : w.closed = false) : (step cfg op w).2.closed = false := by
+  cases op with
+  | init o => exact Triple.snd (lazyCreate_gen notClosed_leafs cfg o) w hw
+  | stop o => exact Triple.snd (stopBody_gen notClosed_leafs cfg o) w hw
+  | restart => rfl
+  | write o =>
+    have := Triple.snd (writeBody_gen notClosed_leafs cfg o (fun _ h => h) writeMsg_notClosed) w hw
+    simp only [step]
+    exact this
+  | extDelete n =>
+    cases hg : w.fs.get n with
+    | none => simp only [step, hg]; exact hw
+    | some e => simp only [step, hg, envTouch_closed]; exact hw
+  | extReplace n =>
+    cases hg : w.fs.get n with
+    | none => simp only [step, hg]; exact hw
+    | some e => simp only [step, hg, envTouch_closed]; exact hw
+
+/-- after ANY history and ANY faults the sink does not hold a closed file object -/
+theorem run_notClosed (cfg : Cfg) (ops : List Op) (w : W) (hw : w.closed = false) : (run cfg ops w).closed = false := by
+  induction ops generalizing w with
+  | nil => exact hw
+  | cons op rest ih => exact ih _ (step_notClosed cfg op w hw)
 
 end FileSink
